@@ -142,6 +142,13 @@ def cell_expr(rng, cell, b):
         return {"cls": "ConstantMul", "base": dense(rng, b, 4), "c": T(unif(rng, 0.5, 2.5, *b))}
     if c == "ConstMulKron":
         return {"cls": "ConstantMul", "base": kron(rng, b, [2, 3]), "c": T(unif(rng, 0.5, 2.5, *b))}
+    if c == "ConstMulNegNeg":               # PSD assembled from non-PSD parts: negative constant x negative-definite base
+        return {"cls": "ConstantMul", "base": {"cls": "Dense", "t": T(-spd(rng, b, 4))}, "c": T(-unif(rng, 0.5, 2.5, *b))}
+    if c == "SumNegDom4":                   # p.d. summand dominating a negative-definite one
+        return {"cls": "Sum", "ops": [{"cls": "Dense", "t": T(3.0 * spd(rng, b, 4))}, {"cls": "Dense", "t": T(-0.1 * spd(rng, b, 4))}]}
+    if c == "MatmulAAt3":                   # Matmul(A, A^T) with a non-symmetric invertible A
+        Lm = lower(rng, b, 3) + 0.3 * torch.triu(gauss(rng, *b, 3, 3), 1)
+        return {"cls": "Matmul", "l": {"cls": "Dense", "t": T(Lm)}, "r": {"cls": "Dense", "t": T(Lm.mT)}}
     if c == "ConstMulScalar":               # an unbatched constant on a (possibly batched) operator
         return {"cls": "ConstantMul", "base": dense(rng, b, 3), "c": T(unif(rng, 0.5, 2.5))}
     if c == "BlockDiag3x2":
@@ -210,7 +217,14 @@ PD_CELLS = ["Dense1", "Dense2", "Dense3", "Dense5", "Toeplitz4", "Sum4",
             "KPADconst", "KPADconst222", "KPADkconst", "KPADkunit", "KPADkdiag", "KPADdiag", "SumKron23",
             "AddedDiagC", "AddedDiagD", "AddedDiagKronC", "ConstMulDense", "ConstMulKron", "ConstMulScalar",
             "BlockDiag3x2", "BlockDiag1x3", "BlockDiagKron", "BlockDiagDiag", "BlockInter3x2", "BlockInter2x3",
-            "RepeatDense", "RepeatKron", "RepeatBatch"]
+            "RepeatDense", "RepeatKron", "RepeatBatch", "ConstMulNegNeg", "SumNegDom4", "MatmulAAt3"]
+# explicit-method queries under LOWERED thresholds (max_cholesky_size below n, rank bound 2 < n)
+LOW_CELLS = ["Dense3", "Dense5", "Toeplitz4", "Sum4", "AddedDiagC", "AddedDiagD", "ConstMulDense", "BlockDiag3x2", "RepeatDense",
+             "Kron23", "KPADconst", "SumKron23", "ConstMulNegNeg", "SumNegDom4", "MatmulAAt3"]
+LOW_Q = [("root", "cholesky", False), ("root", "symeig", False), ("root", "diagonalization", False), ("root", "svd", False),
+         ("root_inv", "cholesky", False), ("root_inv", "symeig", False), ("root_inv", "diagonalization", False),
+         ("root_inv", "svd", False), ("root_inv", "pinverse", False), ("diag", "symeig", False), ("eigh", None, False),
+         ("svd", None, False), ("cholesky", None, False)]
 SINGULAR_CELLS = ["RootLow", "AddedDiagLowC", "SingDense4"]   # singular PSD; AddedDiagLowC is p.d. over a singular base
 CHOLU_CELLS = ["CholU4"]
 TRI_CELLS = ["TriL3", "TriU3"]
@@ -401,6 +415,11 @@ def enumerate_grid(quick=True):
                           ("root", "diagonalization", False), ("root_inv", "diagonalization", False), ("root", "symeig", False),
                           ("eigh", None, False)]:
                     add(cell, b, q, mrs=2, kind="hist", steps=[["self", writer[0], writer[1], writer[2]]], target="self")
+    # L. every explicit method x class under lowered thresholds: a direct method explicitly asked for must be answered by it
+    for cell in LOW_CELLS:
+        for q in LOW_Q:
+            for mcs in (0, 3):
+                add(cell, (), q, mcs=mcs, mrs=2)
     # K. SCALE: every operator class multiplied by s in {1e-4, 1e-2, 1e2, 1e4} (s = 1 is the rest of the grid), Lanczos and
     #    direct routes, default settings and max_cholesky_size(0); a batch with one member of scale 1e-4
     for cell in SCALE_CELLS:
